@@ -404,7 +404,7 @@ fn forest(args: &[String]) -> anyhow::Result<()> {
                 let mut orbit = std::collections::BTreeSet::new();
                 let mut cur = (real_rows[t / cols], t % cols);
                 while orbit.insert(cur) {
-                    let sv = data.prover_only.sigmas[cur.1][cur.0].to_canonical_u64();
+                    let sv = data.prover_only.sigmas[cur.0][cur.1].to_canonical_u64(); // stored row-major (transposed)
                     cur = *pos.get(&sv).ok_or_else(|| "sigma value is not a cell".to_string())?;
                 }
                 if orbit != members {
